@@ -5,7 +5,9 @@ import MlModel.Model.PipeHeap
 Driver handler for the `pipeheap` model: `_get_outputs` of an `Assign` on the cell heap (property C08,
 "the caller's objects are untouched").
 
-Request : {"model":"pipeheap","record":val,"steps":[{"keys":outspec,"outs":[val | {"at":[seg..]}]}..]}
+Request : {"model":"pipeheap","record":val,"steps":[{"keys":outspec,"outs":[val | {"at":[seg..]}],"outs_at"?:[seg..]}..]}
+          (`outs_at`: the tuple of outputs IS the tuple object at that path of the current record — a function that
+          returned a tuple VALUE of the record)
           `record` is loaded into a fresh heap (one cell per object, no sharing inside it); the steps are
           consecutive `assign`s on the same record; an output `{"at": path}` is the very object found at
           `path` in the *current* record (a function that returns one of its arguments).
@@ -82,6 +84,14 @@ partial def shared (h : Heap) (limit : Nat) (r : Nat) (path : List Json) : List 
       rs.zipIdx.flatMap fun (c, i) => shared h limit c (path ++ [toJson i])
   | _ => []
 
+/-- the heap of `Model/Tree.lean` has `int` / `str` / `None` leaves: a bool is loaded as its int (`load`) -/
+partial def unbool : Pipe.Val → Pipe.Val
+  | .bool b => .int (if b then 1 else 0)
+  | .list xs => .list (xs.map unbool)
+  | .tuple xs => .tuple (xs.map unbool)
+  | .dict kvs => .dict (kvs.map fun (k, v) => (k, unbool v))
+  | v => v
+
 structure St where
   h : Heap
   base : Nat
@@ -106,11 +116,22 @@ def step (st : St) (j : Json) : Except String (St × Option ErrKind) := do
       let (h', r) := load h (← Driver.Pipe.parseVal o)
       h := h'
       outs := outs ++ [r]
-  let (h1, t) := alloc h (.tuple outs)
-  let fouts := outs.map (dump h1)
+  -- the tuple object holding the outputs: a fresh one, or (`outs_at`) the very tuple object of the current record
+  -- that the function returned (its elements are then the objects that tuple holds)
+  let (h1, t, outs2) ← match j.getObjVal? "outs_at" with
+    | .ok (.arr p) => do
+      let path ← p.toList.mapM Driver.Pipe.parseSeg
+      match Tree.get h st.base (path.map segP) with
+      | .ok r =>
+        match h[r]? with
+        | some (.tuple rs) => pure (h, r, rs)
+        | _ => throw s!"outs_at does not name a tuple: {j}"
+      | .error _ => throw s!"bad outs_at path {j}"
+    | _ => let (h1, t) := alloc h (.tuple outs); pure (h1, t, outs)
+  let fouts := outs2.map (dump h1)
   let op : Pipe.Op := { kind := .assign, inKeys := [], outKeys := keys, fn := Pipe.identityFn }
   let fval := st.fval >>= fun b => Pipe.getOutputs op b fouts
-  match getOutputsH false h1 st.base hkeys outs t with
+  match getOutputsH false h1 st.base hkeys outs2 t with
   | (h2, .ok r) => return ({ h := h2, base := r, fval := fval }, none)
   | (h2, .error e) => return ({ h := h2, base := st.base, fval := fval }, some e)
 
@@ -132,7 +153,7 @@ def handle (j : Json) : Except String Json := do
       err := e
   let out := dump st.h st.base
   let agree := match err, st.fval with
-    | none, .ok v => v == out
+    | none, .ok v => unbool v == out
     | some _, .error _ => true
     | _, _ => false
   return Json.mkObj [("err", Driver.optErrJson err), ("out", Driver.Pipe.valJson out),
